@@ -95,6 +95,21 @@ def eval_case(case: dict) -> dict:
         _SNAP.restore()
         return {"viol": [], "funcs": [list(f) for f in funcs], "evals": 1, "nt": False}
     SCHED.set_line_funcs([(f[0], f[1]) for f in case.get("line_funcs") or []])
+    if mode == "epochs":
+        # the scheduling points of a solo encode at which the process-global state differs from the previous point:
+        # between two such points the thread's steps commute with every step of another thread that only writes
+        # global state, so the first and last point of each epoch of constant global state represent it
+        if _LIGHT is None:
+            _LIGHT = C.make_light_fingerprint()
+        _SNAP.restore()
+        docs = _docs(names)
+        s = Sched([docs[0].rtf_encode], [])
+        fps = []
+        s.on_point = lambda tid, k: fps.append(_LIGHT())
+        s.run(start=0)
+        _SNAP.restore()
+        firsts = [i + 1 for i in range(len(fps)) if i == 0 or fps[i] != fps[i - 1]]
+        return {"viol": [], "epoch_firsts": firsts, "npoints": len(fps), "evals": 1, "nt": False}
     if mode == "calibrate":
         res, counts, _ = run_schedule(names, 0, [])
         bad = judge(names, res)
@@ -118,6 +133,9 @@ def eval_case(case: dict) -> dict:
         for p in range(case["lo"], case["hi"]):
             for q in range(case.get("q_lo", 1), case.get("q_hi", case["n_other"] + 1), case.get("stride", 1)):
                 plans.append([((t, p), u), ((u, q), t)])
+    elif mode == "grid":  # explicit (p, q) pairs: thread 0 preempted at p -> 1 ; 1 preempted at q -> back to 0
+        for p, q in case["pq"]:
+            plans.append([((0, p), 1), ((1, q), 0)])
     elif mode == "replay":
         plans = [[(tuple(k), v) for k, v in case["plan"]]]
     for plan in plans:
@@ -164,7 +182,8 @@ def plan(run):
     quick = run.tier == "quick"
     run.rule = ("threads encode pool documents (red 4x2 with title; blue/green paginated with footnote; coloured multi-section; figure with coloured title; plain; grouped; two page_by documents with different data); "
                 "for every ordered pair (quick: 3 seed-rotated ordered pairs + one document with itself + one triple; thorough: all 30 pairs, 4 self-pairs, 6 triples) every schedule with 0 or 1 preemption at every library call boundary; 3 threads "
-                "with <= 1 preemption; every schedule with 2 preemptions inside the first W call boundaries of both threads (W=60 quick for one seed-rotated pair, 250 thorough for all pairs); thorough: 2 preemptions exhaustively on the two smallest documents. states = schedules executed; transitions = preemptions executed; non-trivial = distinct schedules in which a preemption was actually executed")
+                "with <= 1 preemption; every schedule with 2 preemptions inside the first W call boundaries of both threads (W=60 quick for one seed-rotated pair, 250 thorough for all pairs); every NON-nested 2-preemption schedule (A paused at p, B runs to q, A runs to its end, B continues) with p, q in {first, last and the two points after the first of every epoch of constant process-global state of the solo encode} "
+                "plus an even grid of G points (G=16 quick, 48 thorough); thorough: 2 preemptions exhaustively on the two smallest documents. states = schedules executed; transitions = preemptions executed; non-trivial = distinct schedules in which a preemption was actually executed")
     run.assumptions = ["scheduling points are entries of functions whose code file is under <repo>/src/rtflite/, plus every line of the library "
                        "functions that a discovery pass observed to change process-global state (census / name bindings) while encoding",
                        "between schedules the process-global state is restored by the generic census snapshot (asserted)"]
@@ -231,6 +250,33 @@ def plan(run):
         cases = [{"mode": "two", "docs": [a, b], "start": 0, "thread": 0, "other": 1, "lo": lo, "hi": min(W + 1, lo + 3), "n_other": counts.get(b, 0),
                   "q_lo": 1, "q_hi": W + 1, "line_funcs": LF} for lo in range(1, W + 1, 3)]
         run.layer(f"2-threads-2-preemptions-startup-window-{a}-{b}", "mc.props.c15:eval_case", cases, chunk=1, total=len(cases), on_result=on_res)
+    # two preemptions in the NON-nested order (A paused at p, B runs to q, A runs to its end, B continues), p and q drawn from
+    # the epoch structure of each solo encode: the first and last scheduling point of every epoch of constant process-global
+    # state (a thread's steps inside an epoch commute with another thread's writes), plus an even grid of G points
+    epochs = {}
+
+    def on_ep(r):
+        if "epoch_firsts" in r:
+            epochs[r["_case"]["docs"][0]] = (r["epoch_firsts"], r["npoints"])
+
+    run.layer("epochs-of-constant-global-state", "mc.props.c15:eval_case", [{"mode": "epochs", "docs": [d], "line_funcs": LF} for d in DOCS], chunk=1, on_result=on_ep)
+    G = 16 if quick else 48
+
+    def point_set(d):
+        firsts, n = epochs.get(d, ([1], counts.get(d, 1)))
+        lasts = [f - 1 for f in firsts[1:]] + [n]
+        near = [f + k for f in firsts for k in (1, 2) if f + k <= n]  # just inside each epoch
+        grid = [max(1, round(n * k / G)) for k in range(1, G + 1)]
+        return sorted({x for x in firsts + lasts + near + grid if 1 <= x <= n})
+
+    run.extra["epochs_per_encode"] = {d: len(v[0]) for d, v in epochs.items()}
+    gpairs = list(dict.fromkeys(list(pairs) + [(a, a) for a in same])) if quick else list(itertools.permutations(DOCS, 2)) + [(a, a) for a in same]
+    cases = []
+    for a, b in gpairs:
+        pq = [(p_, q_) for p_ in point_set(a) for q_ in point_set(b)]
+        for i in range(0, len(pq), 30):
+            cases.append({"mode": "grid", "docs": [a, b], "start": 0, "pq": pq[i:i + 30], "line_funcs": LF})
+    run.layer("2-threads-2-preemptions-non-nested-epoch-grid", "mc.props.c15:eval_case", cases, chunk=1, total=len(cases), on_result=on_res)
     if not quick:
         small = sorted(counts, key=counts.get)[:2]
         for a, b in itertools.permutations(small, 2):
